@@ -34,6 +34,11 @@ CHECKS = [
         "Type algebra: unit, sums of 0-3 constructors, binary/ternary products in flat and nested spelling, named fields, nesting; <= 3 rows of depth-2 patterns exhaustively, <= 4 rows of depth 3 by simulation. Package payload patterns are not generated.",
         "TLA+ transcription vs declarative definition model checked by TLC; spec->code replay (verdict, run-time arm); code->spec TLC validation of reported witnesses",
         "DESIGN.md §4 C04"),
+    chk("C08", "model_checking",
+        "spec/ZyGraph.tla models Kosaraju::run, SccGraph::{new,top,release} (five maps, one id at a time) and BindingContext's level-by-level order with every hash iteration order as a nondeterministic permutation; TLC checks them against mutual reachability for all 512 digraphs on 3 nodes under all 6 orders (thorough: all 65536 on 4 nodes under 3 orders): components, top() after every piecemeal release, map consistency, dependencies-first emission, order independent of iteration order. Drain behaviours are replayed on the real zydeco_utils::graph API. spec/ZyBlocks.tla enumerates every block of 3 contributions (param/value/type definition), every reference graph and every textual permutation: the real verdict (value cycles rejected with a diagnostic, recursive type groups accepted) and exit code must equal the permutation-independent prediction.",
+        "4-node graphs are sampled by simulation in the quick tier and enumerated in the thorough tier; cycles through parameters are not expressible with well-sorted contributions and are not generated.",
+        "TLA+ implementation-shaped model vs declarative SCC oracle, model checked by TLC under nondeterministic iteration order; spec->code replay on the graph API and on rendered block programs",
+        "DESIGN.md §4 C08"),
 ]
 
 PENDING_REASON = "check not built yet (planned, see DESIGN.md)"
